@@ -180,6 +180,8 @@ func (t *Transaction) Write(p []byte) (n int, err error) {
 	copy(t.ParamCount[:], p[20:22])
 
 	scanner := bufio.NewScanner(bytes.NewReader(p[22:tranLen]))
+	// A field token is up to 4 + 65535 bytes, which exceeds the scanner's default 64 KiB token limit.
+	scanner.Buffer(nil, minFieldLen+0xFFFF+1)
 	scanner.Split(FieldScanner)
 
 	for i := 0; i < int(paramCount); i++ {
